@@ -5,6 +5,7 @@ package vsync
 
 import (
 	"sync"
+	"unsafe"
 
 	"github.com/whatap/golib/verifshim/sched"
 )
@@ -23,21 +24,28 @@ type Mutex struct {
 	epoch int // execution in which held was set; a stale epoch means "left locked by an abandoned run"
 }
 
+//go:norace
 func (m *Mutex) isHeld() bool { return m.held && m.epoch == sched.Epoch() }
 
+//go:norace
+func (m *Mutex) isFree() bool { return !m.isHeld() }
+
+//go:norace
 func (m *Mutex) Lock() {
 	switch sched.CurMode() {
 	case sched.ModeActive:
 		x := sched.Cur()
-		x.Yield(sched.Op{Kind: "lock", Obj: m, Enabled: func() bool { return !m.isHeld() }})
+		x.Yield(sched.Op{Kind: "lock", Obj: m, Enabled: m.isFree})
 		m.held = true
 		m.epoch = sched.Epoch()
+		sched.RaceAcquire(unsafe.Pointer(&m.real)) // the edge sync.Mutex gives: previous Unlock -> this Lock
 	case sched.ModeAborting:
 	default:
 		m.real.Lock()
 	}
 }
 
+//go:norace
 func (m *Mutex) TryLock() bool {
 	switch sched.CurMode() {
 	case sched.ModeActive:
@@ -48,6 +56,7 @@ func (m *Mutex) TryLock() bool {
 		}
 		m.held = true
 		m.epoch = sched.Epoch()
+		sched.RaceAcquire(unsafe.Pointer(&m.real))
 		return true
 	case sched.ModeAborting:
 		return true
@@ -56,12 +65,14 @@ func (m *Mutex) TryLock() bool {
 	}
 }
 
+//go:norace
 func (m *Mutex) Unlock() {
 	switch sched.CurMode() {
 	case sched.ModeActive:
 		if !m.isHeld() {
 			panic("vsync: unlock of unlocked mutex")
 		}
+		sched.RaceRelease(unsafe.Pointer(&m.real))
 		m.held = false
 		sched.Cur().Yield(sched.Op{Kind: "unlock", Obj: m})
 	case sched.ModeAborting:
@@ -71,9 +82,14 @@ func (m *Mutex) Unlock() {
 }
 
 // Held reports the modelled state (for harness invariants).
+//
+//go:norace
 func (m *Mutex) Held() bool { return m.isHeld() }
 
 type waiter struct{ signaled bool }
+
+//go:norace
+func (w *waiter) isSignaled() bool { return w.signaled }
 
 // Cond is a drop-in for sync.Cond.
 type Cond struct {
@@ -86,6 +102,7 @@ func NewCond(l Locker) *Cond {
 	return &Cond{L: l, real: sync.NewCond(l)}
 }
 
+//go:norace
 func (c *Cond) Wait() {
 	switch sched.CurMode() {
 	case sched.ModeActive:
@@ -97,11 +114,12 @@ func (c *Cond) Wait() {
 			if !m.isHeld() {
 				panic("vsync: Cond.Wait without holding L")
 			}
+			sched.RaceRelease(unsafe.Pointer(&m.real))
 			m.held = false
 		} else {
 			c.L.Unlock()
 		}
-		x.Yield(sched.Op{Kind: "condwait", Obj: c, Enabled: func() bool { return w.signaled }})
+		x.Yield(sched.Op{Kind: "condwait", Obj: c, Enabled: w.isSignaled})
 		c.L.Lock()
 	case sched.ModeAborting:
 	default:
@@ -109,6 +127,7 @@ func (c *Cond) Wait() {
 	}
 }
 
+//go:norace
 func (c *Cond) Signal() {
 	switch sched.CurMode() {
 	case sched.ModeActive:
@@ -123,6 +142,7 @@ func (c *Cond) Signal() {
 	}
 }
 
+//go:norace
 func (c *Cond) Broadcast() {
 	switch sched.CurMode() {
 	case sched.ModeActive:
@@ -138,4 +158,6 @@ func (c *Cond) Broadcast() {
 }
 
 // Waiters reports how many threads are parked in Wait (for harness invariants).
+//
+//go:norace
 func (c *Cond) Waiters() int { return len(c.waiters) }
